@@ -184,7 +184,7 @@ def run_one(mu, j, par):
         if chk.stdout.strip() not in ("0", ""):
             res["status"] = "stillborn"; return res
         try:
-            t = subprocess.run("make -C %s test 2>&1" % wt, shell=True, capture_output=True, text=True, timeout=200)
+            t = subprocess.run("timeout -k 5 200 make -C %s test 2>&1" % wt, shell=True, capture_output=True, text=True, timeout=260)
             out = t.stdout
         except subprocess.TimeoutExpired:
             res["status"] = "suite-killed"; res["suite"] = "timeout"; return res
